@@ -126,6 +126,13 @@ func (e *Engine) ptrHeapName(elem types.Type) (string, string) {
 func (e *Engine) mapHeapNames(m *types.Map) (valH, valS, domH, domS string) {
 	ks, vs := e.sortOf(m.Key()), e.sortOf(m.Elem())
 	key := typeKey(m.Key()) + "_" + typeKey(m.Elem())
+	if pp := privatePkgOf(m.Key()); pp != "" {
+		e.markPrivate("HMv_"+key, pp)
+		e.markPrivate("HMd_"+key, pp)
+	} else if pp := privatePkgOf(m.Elem()); pp != "" {
+		e.markPrivate("HMv_"+key, pp)
+		e.markPrivate("HMd_"+key, pp)
+	}
 	return "HMv_" + key, "(Array Int (Array " + ks + " " + vs + "))", "HMd_" + key, "(Array Int (Array " + ks + " Bool))"
 }
 
@@ -167,4 +174,30 @@ func deref(t types.Type) types.Type {
 		return p.Elem()
 	}
 	return t
+}
+
+// privatePkgOf: the package path if t is (a pointer/slice of) an unexported named type.
+func privatePkgOf(t types.Type) string {
+	for {
+		switch u := t.(type) {
+		case *types.Pointer:
+			t = u.Elem()
+			continue
+		case *types.Slice:
+			t = u.Elem()
+			continue
+		case *types.Named:
+			if u.Obj().Pkg() != nil && !u.Obj().Exported() {
+				return u.Obj().Pkg().Path()
+			}
+		}
+		return ""
+	}
+}
+
+func (e *Engine) markPrivate(heap, pkg string) {
+	if e.privateHeaps == nil {
+		e.privateHeaps = map[string]string{}
+	}
+	e.privateHeaps[heap] = pkg
 }
